@@ -22,6 +22,10 @@ type aS struct {
 	p *int
 }
 
+type aErr struct{ s string }
+
+func (e *aErr) Error() string { return "aErr" }
+
 func afn1() int { return 1 }
 func afn2() int { return 2 }
 
@@ -64,6 +68,12 @@ func argPools(rng *rand.Rand, extra int) []argPool {
 	ps[len(ps)-1].typ = reflect.TypeOf((*error)(nil)).Elem()
 	add("any", (*interface{})(nil), 1, 1, 2, "a", "a", aS{1, "x", nil}, aS{1, "x", nil}, 1.5, true, nil, []int{1}, []int{1}, ip(1), ip(1))
 	ps[len(ps)-1].typ = reflect.TypeOf((*interface{})(nil)).Elem()
+	// pointers of ONE dynamic type behind an interface-typed parameter, typed nil among them
+	add("anyptr", (*interface{})(nil), ip(1), ip(1), ip(2), (*int)(nil), (*int)(nil), nil, &aS{1, "x", nil}, &aS{1, "x", nil}, (*aS)(nil))
+	ps[len(ps)-1].typ = reflect.TypeOf((*interface{})(nil)).Elem()
+	pe1 := &aErr{"e"}
+	add("errorptr", (*error)(nil), pe1, pe1, &aErr{"e"}, &aErr{"f"}, (*aErr)(nil), nil)
+	ps[len(ps)-1].typ = reflect.TypeOf((*error)(nil)).Elem()
 	add("anymixed", (*interface{})(nil), 1, "1", 1.0, int64(1), true, "true", 0, "0", false, "")
 	ps[len(ps)-1].typ = reflect.TypeOf((*interface{})(nil)).Elem()
 	add("func", afn1, afn1, afn1, afn2, (func() int)(nil), nil)
@@ -144,8 +154,26 @@ type argEv struct {
 }
 
 func sameDyn(a, b interface{}) bool {
-	return a == nil || b == nil || reflect.TypeOf(a) == reflect.TypeOf(b)
+	if a == nil || b == nil {
+		// behind an interface-typed parameter the untyped nil and a typed nil pointer have different dynamic types
+		// (in Go, interface{}((*int)(nil)) != nil); for a parameter of the pointer type itself nil IS the typed nil
+		o := a
+		if o == nil {
+			o = b
+		}
+		if o != nil && curPoolIface {
+			if v := reflect.ValueOf(o); (v.Kind() == reflect.Ptr || v.Kind() == reflect.Map || v.Kind() == reflect.Slice ||
+				v.Kind() == reflect.Func || v.Kind() == reflect.Chan) && v.IsNil() {
+				return false
+			}
+		}
+		return true
+	}
+	return reflect.TypeOf(a) == reflect.TypeOf(b)
 }
+
+// curPoolIface: the pool being evaluated has an interface static type
+var curPoolIface bool
 
 func evalExpr(e arg.Expr, t reflect.Type, y reflect.Value, times int) (res []bool, errs string) {
 	defer func() {
@@ -187,6 +215,7 @@ func TestVerifArgAlgebra(t *testing.T) {
 	defer bw.Flush()
 	enc := json.NewEncoder(bw)
 	for _, p := range argPools(rng, envIntOr("VERIF_EXTRA", 4)) {
+		curPoolIface = p.typ.Kind() == reflect.Interface
 		n := len(p.vals)
 		class := make([]int, n)
 		for i := range class {
